@@ -60,7 +60,9 @@ def check(ctx):
     sim, tp = f.args.args[1].arg, f.args.args[2].arg
     top = [k(util.stmt_key(s)) for s in f.body]
     problems = []
-    need = ["global_simulator=__cast__('void*',%s)" % sim, 'x0=%s.get_initial_state().copy()' % sim,
+    y0s = [src(c_.args[1]) for c_ in util.calls_in(f, suffix='odeint') if len(c_.args) >= 2]
+    y0 = y0s[0] if len(set(y0s)) == 1 and y0s[0].isidentifier() else 'x0'      # the local the integrator starts from, whatever it is called
+    need = ["global_simulator=__cast__('void*',%s)" % sim, '%s=%s.get_initial_state().copy()' % (y0, sim),
             'S=%s.get_update_array()+%s.get_delay_update_array()' % (sim, sim), 'num_species=S.shape[0]']
     for n in need:
         if n not in top:
@@ -85,8 +87,8 @@ def check(ctx):
     else:
         c = calls[0]
         pos = [src(x) for x in c.args[:3]]
-        if pos != ['rhs_global', 'x0', tp]:
-            problems.append('odeint called with %s, expected (rhs_global, x0, %s)' % (pos, tp))
+        if pos != ['rhs_global', y0, tp]:
+            problems.append('odeint called with %s, expected (rhs_global, %s, %s)' % (pos, y0, tp))
         kw = {x.arg: src(x.value) for x in c.keywords if x.arg}
         if kw.get('tfirst') not in (None, 'False'):
             problems.append('tfirst=%s does not match rhs_global(state, t)' % kw.get('tfirst'))
